@@ -218,8 +218,15 @@ func (s *pairSys) Step(op int) bfs.StepResult {
 				add("error-family", "Windows-typed instance returned a value of family "+wr.Fam)
 			}
 
-			// the property requires agreement on success or failure only: a
-			// mismatch of error classes is informational (VERIF_C17_ERRCLASS=1 lists it)
+			// the portable class of the two values (errmap.go "Portable error
+			// classes"): what a caller written for both types branches on
+			for _, what := range classFindings(c.Op, lr, wr) {
+				det.Note = fmt.Sprintf("errors.Is classes: linux %q (errno on Linux: %q), windows %q (errno on Windows: %q)", lr.Class, lr.Want, wr.Class, wr.Want)
+				add("error-class", what)
+			}
+
+			// the correspondence of the error NUMBERS (Errors.SetOSType) is
+			// informational (VERIF_C17_ERRCLASS=1 lists it)
 			if errClassReport && !classCompatible(c.Op, lr.Kind, wr.Kind, lr.Fam, wr.Fam) {
 				add("error-class", "failure kinds are not counterparts in Errors.SetOSType / the call's OS branch")
 			}
@@ -275,7 +282,16 @@ func (s *pairSys) values(c fsx.Call, lr, wr result) (lv, wv string, compare bool
 		}
 
 		return lr.Val, wr.Val, true
-	case "ReadFile", "Glob", "WalkDir":
+	case "IsEmpty":
+		// in the default configuration the root holds the system area, which has
+		// no counterpart (the listing calls leave it out, hideSys; with "@D" it
+		// stays on another volume): whether the root is empty is not comparable
+		if s.cfg.sysDirs && !isRolePath(c.A) && lexAbs(s.curCwd, c.A) == "" {
+			return "", "", false
+		}
+
+		return lr.Val, wr.Val, true
+	case "ReadFile", "Glob", "WalkDir", "Exists", "DirExists", "IsDir":
 		// the paths of Glob and WalkDir were made portable one by one (rawCall)
 		return lr.Val, wr.Val, true
 	case "Readlink":
@@ -477,6 +493,17 @@ func sameClass(dump []string, a, b string) bool {
 	return oka && okb && ea.class != "" && ea.class == eb.class
 }
 
+// classHelperNames: the exported functions of package avfs that take a file
+// system and a path and answer by the CLASS of the failure of a Stat
+// (errors.Is(err, fs.ErrNotExist) -> "no" instead of an error) — explicit
+// list, vfs_aferoutils.go. General lesson: see errmap.go "Portable error
+// classes"; as calls of the alphabet they turn a value that lost its class on
+// one OS type into success on one type and failure on the other.
+var (
+	classHelperNames = []string{"Exists", "DirExists", "IsDir", "IsEmpty"}
+	classHelperOps   = map[string]bool{"Exists": true, "DirExists": true, "IsDir": true, "IsEmpty": true}
+)
+
 // buildOps is the alphabet of part (C), in portable form. No Chown, Lchown,
 // Chmod (documented as OS-specific); absolute link targets are written in
 // portable form and translated per instance.
@@ -545,6 +572,14 @@ func buildOps(kind, tier string, cfg sideCfg) []fsx.Call {
 			fsx.Call{Op: "CreateTemp", A: p, B: "t*"},
 			fsx.Call{Op: "MkdirTemp", A: p, B: "t*"},
 		)
+
+		// the helpers of the root package that branch on the class of a failure
+		// (classHelperOps): on every operand of the one-path calls, in every
+		// spelling — a name whose last element is missing, one whose PARENT is
+		// missing ("/a/b" without "/a": another Windows value), one below a file
+		for _, h := range classHelperNames {
+			ops = append(ops, fsx.Call{Op: h, A: p})
+		}
 
 		if kind == "MemFS" { // OrefaFS does not advertise FeatSymlink
 			ops = append(ops,
